@@ -1,0 +1,46 @@
+//go:build verif
+
+package core
+
+// Contracts for govc (see /verif/DESIGN.md). Compiled only with -tags verif.
+//
+// range(m) = { k | StartKey <= k and (EndKey empty or k < EndKey) }; the empty start
+// key is the least key, so "StartKey <= k" needs no special case.
+
+//@ spec func inR(m manifest.RegionMeta, k ByteSeq) bool = bcmp(k, m.StartKey) >= 0 && (len(m.EndKey) == 0 || bcmp(k, m.EndKey) < 0)
+//@ spec func nonEmptyRange(m manifest.RegionMeta) bool = len(m.EndKey) == 0 || bcmp(m.StartKey, m.EndKey) < 0
+
+//@ func rangesOverlap
+//@   property C26
+//@   ensures [no-overlap-means-disjoint] !result ==> (forall k ByteSeq :: !(inR(a, k) && inR(b, k)))
+//@   ensures [overlap-has-witness] result && nonEmptyRange(a) && nonEmptyRange(b) ==> (bcmp(a.StartKey, b.StartKey) >= 0 ? (inR(a, bs(a.StartKey)) && inR(b, bs(a.StartKey))) : (inR(a, bs(b.StartKey)) && inR(b, bs(b.StartKey))))
+//@   modifies nothing
+
+//@ func isEpochStale
+//@   property C26
+//@   ensures [lexicographic] result <==> (incoming.Version < current.Version || (incoming.Version == current.Version && incoming.ConfVersion < current.ConfVersion))
+//@   modifies nothing
+
+//@ func (*Cluster).findOverlapLocked
+//@   property C26
+//@   requires c != nil
+//@   ensures [found-overlaps] result1 && nonEmptyRange(meta) && nonEmptyRange(c.regions[result]) ==> result != meta.ID && has(c.regions, result) && (exists k ByteSeq :: inR(meta, k) && inR(c.regions[result], k))
+//@   ensures [none-means-disjoint-from-all] !result1 ==> (forall id uint64 :: has(c.regions, id) && id != meta.ID ==> (forall k ByteSeq :: !(inR(meta, k) && inR(c.regions[id], k))))
+//@   loop 1 invariant [seen-disjoint] c != nil && (forall id uint64 :: seen(id) && id != meta.ID ==> (forall k ByteSeq :: !(inR(meta, k) && inR(c.regions[id], k))))
+//@   modifies nothing
+
+//@ func (*Cluster).rebuildRegionIndexLocked
+//@   property C26
+//@   requires c != nil
+//@   ensures [frame-only-index] true
+//@   loop 1 invariant [index-fresh] c != nil && fresh(index)
+//@   modifies c.regionIndex
+
+// Accepting a heartbeat: the statement's "routes every key to the unique region":
+// an accepted region has a valid id, a non-empty range, is not older than what PD
+// knows, and is disjoint from every other known region.
+//@ func (*Cluster).UpsertRegionHeartbeat
+//@   property C26
+//@   ensures [accepted-wellformed] result == nil && c != nil ==> meta.ID != 0 && old(nonEmptyRange(meta))
+//@   ensures [accepted-not-stale] result == nil && c != nil && old(has(c.regions, meta.ID)) ==> !(meta.Epoch.Version < old(c.regions[meta.ID].Epoch.Version) || (meta.Epoch.Version == old(c.regions[meta.ID].Epoch.Version) && meta.Epoch.ConfVersion < old(c.regions[meta.ID].Epoch.ConfVersion)))
+//@   ensures [accepted-disjoint] result == nil && c != nil ==> (forall id uint64 :: old(has(c.regions, id)) && id != meta.ID ==> (forall k ByteSeq :: !(old(inR(meta, k)) && old(inR(c.regions[id], k)))))
